@@ -1,6 +1,7 @@
 import FuModel.Proofs.ExecBatch
 import FuModel.Proofs.ExecLossless
 import FuModel.Proofs.ExecWalk
+import FuModel.Proofs.NoPrune
 
 /-!
 # C08 — property theorems (proofs in `Proofs/ExecBatch.lean`, `Proofs/ExecLossless.lean`)
@@ -71,4 +72,18 @@ example :
       handed [[99]] 0 (flushAll [(0, false, true, [99], [])] s1.gs false).1 = [[116, 47, 97]] ∧
       pendingOf 0 (flushAll [(0, false, true, [99], [])] s1.gs false).1 = [] := by decide
 
+/-- `C08_whole_walk` for expressions without `-prune`: in pre-order (no `-depth`) there is no
+    hypothesis on the tree at all -/
+theorem C08_whole_walk_pre (id : Nat) (dir : Bool) (cmd : Bytes) (fixed : List Bytes)
+    (c : Config) (m : FuModel.Find.Expr.M Prim) (start : Bytes) (root : Node Attr) (g : GS)
+    (hall : m.AllP (Sole id dir cmd fixed)) (hone : m.weight wT ≤ 1) (hmem : M.multis m ≠ [])
+    (hnp : m.AllP (fun p => notPrune p = true))
+    (hb : ∃ nb, newBatch g.budget cmd fixed = some nb) (hpre : (refCfg c).depthFirst = false) :
+    let n := if c.sorted then sortNode root else root
+    let r := processDir c m start (some root) g
+    ∃ L, delivered (cmd :: fixed) r.gs = handed (cmd :: fixed) id g ++ L ∧
+      L.Sublist ((visitsN (refCfg c) [] 0 n).map fun v => execPath dir (pathOf start v.ent.rpath)) ∧
+      pendingOf id r.gs = [] :=
+  whole_walk_lossless id dir cmd fixed c m start root g hall hone hmem hb
+    (Or.inl ⟨hpre, pruneOk_of_noPrune (refCfg c) m hnp start⟩)
 end FuModel.Find.Run
